@@ -245,3 +245,32 @@ func (*verifC06Mem) RemoteAddr() net.Addr             { return nil }
 func (*verifC06Mem) SetDeadline(time.Time) error      { return nil }
 func (*verifC06Mem) SetReadDeadline(time.Time) error  { return nil }
 func (*verifC06Mem) SetWriteDeadline(time.Time) error { return nil }
+
+// PickWait runs the helper (*Session).pickWait of the client once, the way pick() starts it in
+// Channel mode, with the abandoned mark already set or not, and the re-key roll forced. It reports
+// whether a KeyPair is queued afterwards and how many packets the helper put in the send queue.
+func (d *VerifC06Direct) PickWait(abandoned, rekey bool) (pending bool, queued int) {
+	old := VerifC06Roll
+	VerifC06Roll = func(*Session, int) uint32 {
+		if rekey {
+			return 0
+		}
+		return 1
+	}
+	defer func() { VerifC06Roll = old }()
+	d.C.sleep = 0 // wait() returns at once
+	var o uint32
+	if abandoned {
+		o = 1
+	}
+	before := len(d.C.send)
+	d.C.pickWait(&o)
+	return d.C.keysNext != nil, len(d.C.send) - before
+}
+
+// DrainSend empties the client's send queue.
+func (d *VerifC06Direct) DrainSend() {
+	for len(d.C.send) > 0 {
+		<-d.C.send
+	}
+}
